@@ -91,6 +91,8 @@ def _hist_ops():
                     ["rx", "0;255;3;0;14;Gateway startup complete.\n"],
                     ["rx", "1;255;3;0;22;5\n"],
                     ["rx", "junk\n"],
+                    ["session"],
+                    ["session"],
                 )
             ),
         ),
@@ -184,7 +186,13 @@ def _run_gate(case: dict) -> Outcome:
     return Outcome(ok=True, nontrivial=nontrivial, classes=classes)
 
 
-def _report_text(line: str) -> str | None:
+def _report_text(line: str | None) -> str | None:
+    if line is None:
+        return None
+    return _report_text_of(line)
+
+
+def _report_text_of(line: str) -> str | None:
     if line.startswith("0;255;3;0;2;") or line.startswith("0;255;0;0;18;"):
         return line.rstrip("\n").split(";", 5)[5]
     return None
@@ -192,6 +200,7 @@ def _report_text(line: str) -> str | None:
 
 def _run_hist(case: dict) -> Outcome:
     ops = case["ops"]
+    ops = [op if len(op) > 1 else [op[0], None] for op in ops]
     reports = [_report_text(op[1]) for op in ops if _report_text(op[1]) is not None]
     release_reports = [r for r in reports if ref_protocol(r) is not None]
     rejected_after_accepted = any(
@@ -207,12 +216,22 @@ def _run_hist(case: dict) -> Outcome:
         async def deliver(line: str):
             return await (listener.next(line) if listener else env.rx(gateway, line))
 
+        in_session = False
         for idx, op in enumerate(ops):
             before = gateway.protocol_version
+            if op[0] == "session":
+                # the application leaves the gateway context and enters it again (reconnect on the same object)
+                if listener is not None:
+                    await listener.close()
+                if in_session:
+                    await gateway.__aexit__(None, None, None)
+                await gateway.__aenter__()
+                in_session = True
+                op = ["rx", "0;255;3;0;9;session restarted\n"]
             status, value = await deliver(op[1])
             reported, rules = gateway.protocol_version, gateway.protocol.VERSION
             text = _report_text(op[1])
-            where = f"step {idx} {op!r}"
+            where = f"step {idx} {case['ops'][idx]!r}"
             if text is not None and status != "ok":
                 stats["rejected"] += 1
                 if ref_protocol(text) is not None:
